@@ -1,0 +1,12 @@
+//go:build !verif
+
+package nsqd
+
+import "time"
+
+// verifPoint marks a named point used by the verification harness (build tag `verif`).
+// Without the tag it is an empty function that the compiler inlines away.
+func verifPoint(string) {}
+
+// verifLookupHeartbeat overrides the lookupd heartbeat interval under the `verif` tag only.
+const verifLookupHeartbeat = time.Duration(0)
